@@ -257,6 +257,11 @@ PlantFails(mb, ln) ==
           Fail(ln.rec.res.ok, "C08:open-failed-" \o ln.rec.res.err),
           Fail(~ln.rec.res.ok \/ o.idx = mb.acked, "C08:index-changed"),
           IF ln.rec.res.ok THEN ScanFails(o, dj, ln.verify, "C08") ELSE {},
+          \* Cas::open with fail_on_integrity_errors: refuses exactly when the (model's) scan has a missing or corrupted blob
+          LET s == Scan(mb.acked, SeqToSet(dj.cas), SeqToSet(dj.casbad), ln.verify) IN
+            IF ~o.orph.on THEN {} ELSE
+            Fail(IF s.missing = {} /\ s.corrupted = {} THEN ln.strict.ok ELSE ~ln.strict.ok /\ ln.strict.err = "Integrity",
+                 "C08:integrity-gate"),
           \* clean-up removes exactly the reported garbage and never harms live data
           Fail(ln.cres.ok, "C08:cleanup-failed"),
           Fail(co.idx = o.idx, "C08:cleanup-changed-index"),
